@@ -14,11 +14,35 @@ def parseDict (j : Json) : R Dict := do
 
 def optDict (j : Json) : R (Option Dict) := if j.isNull then pure none else some <$> parseDict j
 
+def excKind? : String → Option ExcKind
+  | "fail:secop" => some .secop
+  | "fail:value" => some .value
+  | "fail:key" => some .key
+  | "fail:zerodiv" => some .zerodiv
+  | _ => none
+
+def excName : ExcKind → String
+  | .secop => "secop"
+  | .value => "value"
+  | .key => "key"
+  | .zerodiv => "zerodiv"
+
+def jexc (e : Option ExcKind) : Json := jopt (fun k => Json.str (excName k)) e
+
 def wresWith (f : Json → R α) (j : Json) : R (WRes α) :=
   match j with
-  | .str "fail" => pure .fail
   | .str "none" => pure .retNone
+  | .str t => match excKind? t with
+    | some k => pure (.fail k)
+    | none => throw s!"bad write outcome {t}"
   | _ => .ret <$> f j
+
+def rresWith (f : Json → R α) (j : Json) : R (RRes α) :=
+  match j with
+  | .str t => match excKind? t with
+    | some k => pure (.fail k)
+    | none => throw s!"bad read outcome {t}"
+  | _ => .ok <$> f j
 
 def jdict (d : Dict) : Json := jarr (d.map (fun e => jarr [Json.str e.1, jint e.2]))
 
@@ -27,14 +51,16 @@ def jdict (d : Dict) : Json := jarr (d.map (fun e => jarr [Json.str e.1, jint e.
 def parseSOp (members : List String) (j : Json) : R Op := do
   match (← arr j) with
   | [.str "readStruct", rA, rB] =>
-    let rs ← (← arr rB).mapM optInt
-    return .readStruct (← optDict rA) (fun m => ((members.zip rs).lookup m).join)
+    let rs ← (← arr rB).mapM (rresWith (·.getInt?))
+    return .readStruct (← rresWith parseDict rA) (fun m => ((members.zip rs).lookup m).getD (.fail .secop))
   | [.str "writeStruct", v, wA, wB] =>
     let ws ← (← arr wB).mapM (wresWith (·.getInt?))
-    return .writeStruct (← parseDict v) (← wresWith parseDict wA) (fun m => ((members.zip ws).lookup m).getD .fail)
-  | [.str "readMember", m, rA, rB] => return .readMember (← m.getStr?) (← optDict rA) (← optInt rB)
+    return .writeStruct (← parseDict v) (← wresWith parseDict wA) (fun m => ((members.zip ws).lookup m).getD (.fail .secop))
+  | [.str "readMember", m, rA, rB] =>
+    return .readMember (← m.getStr?) (← rresWith parseDict rA) (← rresWith (·.getInt?) rB)
   | [.str "writeMember", m, v, wA, rA, wB] =>
-    return .writeMember (← m.getStr?) (← v.getInt?) (← wresWith parseDict wA) (← optDict rA) (← wresWith (·.getInt?) wB)
+    return .writeMember (← m.getStr?) (← v.getInt?) (← wresWith parseDict wA) (← rresWith parseDict rA)
+      (← wresWith (·.getInt?) wB)
   | [.str "assignStruct", v] => return .driverAssignStruct (← parseDict v)
   | [.str "assignMember", m, v] => return .driverAssignMember (← m.getStr?) (← v.getInt?)
   | _ => throw s!"bad struct op {j.compress}"
@@ -44,7 +70,8 @@ def evJson : Ev → Json
   | .mem m x => jarr [Json.str "mem", Json.str m, jint x]
 
 def stJson (s : St) : Json :=
-  Json.mkObj [("struct", jdict s.struct), ("mem", jdict s.mem), ("evs", jarr (s.evs.map evJson)), ("ok", Json.bool s.ok)]
+  Json.mkObj [("struct", jdict s.struct), ("mem", jdict s.mem), ("evs", jarr (s.evs.map evJson)), ("ok", Json.bool s.ok),
+              ("exc", jexc s.exc)]
 
 def structCfg (j : Json) : R Cfg := do
   let hr ← fldStrs j "hasR"; let hw ← fldStrs j "hasW"
@@ -63,7 +90,7 @@ def parseFOp (j : Json) : R FOp := do
   match (← arr j) with
   | [.str "writeFloat", x, w] => return .writeFloat (← x.getInt?) (← wresWith (·.getInt?) w)
   | [.str "writeIdx", i, w] => return .writeIdx (← i.getInt?) (← wresWith (·.getInt?) w)
-  | [.str "readIdx", r] => return .readIdx (← optInt r)
+  | [.str "readIdx", r] => return .readIdx (← rresWith (·.getInt?) r)
   | [.str "readFloat"] => return .readFloat
   | [.str "assignIdx", i] => return .driverAssignIdx (← i.getInt?)
   | [.str "assignFloat", x] => return .driverAssignFloat (← x.getInt?)
@@ -74,7 +101,8 @@ def fevJson : FEv → Json
   | .idx i => jarr [Json.str "idx", jint i]
 
 def fstJson (s : FSt) : Json :=
-  Json.mkObj [("idx", jint s.idx), ("value", jint s.value), ("evs", jarr (s.evs.map fevJson)), ("ok", Json.bool s.ok)]
+  Json.mkObj [("idx", jint s.idx), ("value", jint s.value), ("evs", jarr (s.evs.map fevJson)), ("ok", Json.bool s.ok),
+              ("exc", jexc s.exc)]
 
 def parseFRec (j : Json) : R FRec := do
   return { write := ← optInt (← fld j "write"), ok := ← fldBool j "ok", selected := ← optInt (← fld j "selected"),
@@ -102,7 +130,8 @@ def levJson : LEv → Json
 
 def lstJson (s : LSt) : Json :=
   Json.mkObj [("value", jint s.value), ("min", jint s.min), ("max", jint s.max),
-              ("limits", jarr [jint s.limits.1, jint s.limits.2]), ("evs", jarr (s.evs.map levJson)), ("ok", Json.bool s.ok)]
+              ("limits", jarr [jint s.limits.1, jint s.limits.2]), ("evs", jarr (s.evs.map levJson)), ("ok", Json.bool s.ok),
+              ("exc", jexc s.exc)]
 
 def optPair (j : Json) : R (Option (Val × Val)) := do
   if j.isNull then return none
@@ -127,36 +156,45 @@ def lcfg (j : Json) : R LCfg := do
 def parseCOp (j : Json) : R Frappy.Control.Op := do
   match (← arr j) with
   | [.str "writeIn", k, g] => return .writeIn (← k.getNat?) (← g.getBool?)
-  | [.str "writeOut"] => return .writeOut
+  | [.str "writeOut", o] => return .writeOut (← o.getNat?)
   | [.str "activate", k] => return .activate (← k.getNat?)
   | [.str "deactivate", k] => return .deactivate (← k.getNat?)
-  | [.str "selfControlled"] => return .selfControlled
-  | [.str "updateTarget", k] => return .updateTarget (← k.getNat?)
+  | [.str "selfControlled", o] => return .selfControlled (← o.getNat?)
+  | [.str "updateTarget", o, k] => return .updateTarget (← o.getNat?) (← k.getNat?)
   | _ => throw s!"bad control op {j.compress}"
 
+def controlCfg (j : Json) : R (Frappy.Control.Cfg × List Nat) := do
+  let outs ← fldNats j "outs"
+  return ({ n := outs.length, nout := ← fldNat j "nout", outOf := fun i => outs.getD i 0 }, outs)
+
 def cevJson : Frappy.Control.Ev → Json
-  | .cb c => jarr [Json.str "cb", jopt jnat c]
+  | .cb o c => jarr [Json.str "cb", jnat o, jopt jnat c]
   | .act i b => jarr [Json.str "act", jnat i, Json.bool b]
 
-def cstJson (n : Nat) (s : Frappy.Control.St) : Json :=
-  Json.mkObj [("cb", jopt jnat s.cb), ("act", jarr ((List.range n).map (fun i => Json.bool (s.act i)))),
+def cstJson (cfg : Frappy.Control.Cfg) (s : Frappy.Control.St) : Json :=
+  Json.mkObj [("cb", jarr ((List.range cfg.nout).map (fun o => jopt jnat (s.cb o)))),
+              ("act", jarr ((List.range cfg.n).map (fun i => Json.bool (s.act i)))),
               ("evs", jarr (s.evs.map cevJson)), ("ok", Json.bool s.ok)]
 
-def isDeactivate : Frappy.Control.Op → Bool
-  | .deactivate _ => true
-  | _ => false
+/-- the output whose `strong` expectation ends with this operation: a direct `deactivate_control` of one of its inputs -/
+def weakens (cfg : Frappy.Control.Cfg) : Frappy.Control.Op → Option Nat
+  | .deactivate k => if Frappy.Control.validIn cfg k then some (cfg.outOf k) else none
+  | _ => none
 
 /-- records for the monitor: the clause that applies to each operation is read off the operation and the
-flags recorded before it; `strong` ends with the first direct `deactivate_control` call -/
-def mkCRecs (n : Nat) : List (Frappy.Control.Op × (Option Nat × List Bool)) → List Bool → Bool → List CRec
+flags recorded before it -/
+def mkCRecs (cfg : Frappy.Control.Cfg) : List (Frappy.Control.Op × (List (Option Nat) × List Bool)) →
+    (List (Option Nat) × List Bool) → List Bool → List CRec
   | [], _, _ => []
-  | (op, (cb, act)) :: rest, before, strong =>
-    let strong' := strong && !isDeactivate op
-    { takeover := takeoverOf n (fun i => before.getD i false) op, strong := strong', cb := cb, act := act }
-      :: mkCRecs n rest act strong'
+  | (op, (cb, act)) :: rest, (cbB, actB), strong =>
+    let strong' := match weakens cfg op with
+      | some o => strong.set o false
+      | none => strong
+    { takeover := takeoverOf cfg (fun i => actB.getD i false) op, target := some (targetOf cfg op), strong := strong',
+      cbB := cbB, actB := actB, cb := cb, act := act } :: mkCRecs cfg rest (cb, act) strong'
 
-def parseCState (j : Json) : R (Option Nat × List Bool) := do
-  return (← optNat (← fld j "cb"), ← (← fldArr j "act").mapM (·.getBool?))
+def parseCState (j : Json) : R (List (Option Nat) × List Bool) := do
+  return (← (← fldArr j "cb").mapM optNat, ← (← fldArr j "act").mapM (·.getBool?))
 
 /-- indices of all records the monitor rejects -/
 def badIdxs {α : Type} (okB : α → Bool) : List α → Nat → List Nat
@@ -197,16 +235,18 @@ def handle (j : Json) : R Json := do
     let trace ← (← fldArr j "trace").mapM parseLRec
     return verdict (judgeLimits trace 0) (badIdxs limitsOkB trace 0)
   | "control" =>
-    let n ← fldNat j "n"; let ops ← (← fldArr j "ops").mapM parseCOp
-    return Json.mkObj [("init", cstJson n Frappy.Control.init),
-                       ("states", jarr ((Frappy.Control.run n Frappy.Control.init ops).map (cstJson n)))]
+    let (cfg, _) ← controlCfg j; let ops ← (← fldArr j "ops").mapM parseCOp
+    return Json.mkObj [("init", cstJson cfg Frappy.Control.init),
+                       ("states", jarr ((Frappy.Control.run cfg Frappy.Control.init ops).map (cstJson cfg)))]
   | "judge_control" =>
-    let n ← fldNat j "n"; let ops ← (← fldArr j "ops").mapM parseCOp
+    let (cfg, outs) ← controlCfg j; let ops ← (← fldArr j "ops").mapM parseCOp
     let sts ← (← fldArr j "trace").mapM parseCState
     if sts.length ≠ ops.length + 1 then throw "length mismatch (the trace starts with the initial state)"
     let (cb0, act0) := sts.head!
-    let recs := { takeover := .no, strong := true, cb := cb0, act := act0 : CRec } :: mkCRecs n (ops.zip sts.tail!) act0 true
-    return verdict (judgeControl n recs 0) (badIdxs (controlOkB n) recs 0)
+    let strong0 := List.replicate cfg.nout true
+    let recs := { takeover := .no, target := none, strong := strong0, cbB := cb0, actB := act0, cb := cb0, act := act0 : CRec }
+      :: mkCRecs cfg (ops.zip sts.tail!) (cb0, act0) strong0
+    return verdict (judgeControl cfg.n cfg.nout outs recs 0) (badIdxs (controlOkB cfg.n cfg.nout outs) recs 0)
   | _ => throw s!"C18: unknown verb {k}"
 
 end Frappy.Drive.C18
